@@ -155,7 +155,7 @@ int main()
     VF_ERRS errs = {{0}, 0, 0};
     const char* ns = NULL; int fast = 0, want_atoms = 0, want_cands = 0, want_info = 0, want_actab = 0, want_nsm = 0;
     uint8_t* buf = NULL; size_t buflen = 0; uint8_t* atomq = NULL; size_t atomqlen = 0;
-    size_t cuts[64]; int ncuts = -1; int mmd = -1;
+    size_t cuts[64]; int ncuts = -1; int mmd = -1; size_t actab_max = 40000;   // actab=<n> with n > 1 raises the dump limit
     int failed = 0, i;
     yr_compiler_create(&comp);
     yr_compiler_set_callback(comp, vf_compiler_cb, &errs);
@@ -172,7 +172,7 @@ int main()
       if (!strncmp(toks[i], "atoms=", 6)) want_atoms = 1;
       else if (!strncmp(toks[i], "cands=", 6)) want_cands = 1;
       else if (!strncmp(toks[i], "info=", 5)) want_info = 1;
-      else if (!strncmp(toks[i], "actab=", 6)) want_actab = 1;
+      else if (!strncmp(toks[i], "actab=", 6)) { want_actab = 1; if (atoi(toks[i] + 6) > 1) actab_max = (size_t) atoi(toks[i] + 6); }
       else if (!strncmp(toks[i], "nsm=", 4)) want_nsm = 1;
       else if (!strncmp(toks[i], "fast=", 5)) fast = atoi(toks[i] + 5);
       else if (!strncmp(toks[i], "mmd=", 4)) mmd = atoi(toks[i] + 4);
@@ -287,7 +287,7 @@ int main()
         {
           size_t nt = yr_arena_get_current_offset(rules->arena, YR_AC_TRANSITION_TABLE) / sizeof(YR_AC_TRANSITION);
           size_t np = yr_arena_get_current_offset(rules->arena, YR_AC_STATE_MATCHES_POOL) / sizeof(YR_AC_MATCH);
-          if (nt > 40000) emit(" actab=TOOBIG");
+          if (nt > actab_max) emit(" actab=TOOBIG:%zu", nt);
           else
           {
             emit(" act=");
